@@ -643,6 +643,8 @@ def reverseImpl (E : Env) : Fn.ImplFn
   | arg :: _, retTy =>
     let inV := arg.unmark
     let marks := arg.marks
+    if isSetTy inV.ty && !inV.whollyKnown then .ok (withMarkSets (Value.unknown retTy) [marks])
+    else
     match asValueSlice E inV with
     | .ok inVals =>
       let outVals := reverseLoop inVals []
